@@ -98,6 +98,22 @@ List entries(const trace::TraceState &ts)
     l.emplace_back(std::string(k.data(), k.size()), std::string(v.data(), v.size()));
     return true;
   });
+  // the other ways of looking at the same list agree with the full enumeration: Empty(), and an enumeration that
+  // the callback stops after the first member sees exactly that member
+  if (ts.Empty() != l.empty())
+    throw vh::Fail{"Empty() answers " + std::string(ts.Empty() ? "true" : "false") + " for a trace state with " +
+                   std::to_string(l.size()) + " member(s)"};
+  size_t seen = 0;
+  std::string first_key;
+  ts.GetAllEntries([&](nostd::string_view k, nostd::string_view) {
+    if (seen++ == 0)
+      first_key.assign(k.data(), k.size());
+    return false;
+  });
+  if (seen != (l.empty() ? 0u : 1u) || (!l.empty() && first_key != l[0].first))
+    throw vh::Fail{"an enumeration stopped by its callback after the first member saw " + std::to_string(seen) +
+                   " member(s), first key '" + vh::show(first_key) + "', of a trace state with " +
+                   std::to_string(l.size()) + " member(s)"};
   return l;
 }
 
